@@ -89,7 +89,7 @@ def conforming_sessions(rng, q, mx=1024):
     """C06: conforming peers; every split of short streams + random chunkings of longer ones, all four read APIs"""
     cases = []
     sizes = [0, 1, 2, 5, 125, 126, 127, 200]
-    for _ in range(12 if q else 120):
+    for _ in range(40 if q else 200):
         nmsg = rng.randint(1, 3)
         frames = []
         for _ in range(nmsg):
